@@ -98,6 +98,10 @@ def fold_nodes(ctx, model, method, nv, order):
         return f
 
     def derivative(ev, a, k):
+        if a[0].cls in ("PchipInterpolator", "Akima1DInterpolator", "CubicHermiteSpline", "CubicSpline") or (len(a) == 1 and not k) or (len(a) == 2 and is_sym(a[1]) and a[1].is_Integer):
+            # piecewise polynomials: .derivative(nu) is a new interpolant (callable), not values
+            nu = k.get("nu", a[1] if len(a) > 1 else sp.Integer(1))
+            return NodeInterp(a[0].cls, a[0].nnodes, f"{a[0].tag}_d{int(as_sym(nu))}")
         der = k.get("der", a[2] if len(a) > 2 else sp.Integer(1))
         return sp.Function("NODEINTERP_d")(as_sym(a[1]), as_sym(der))
 
